@@ -974,7 +974,7 @@ def _execute_c08_template(scn, scared):
             K, kw = scared.TemplateAttack, {}
         else:
             K = scared.TemplateDPAAttack
-            kw = {'selection_function': scared.attack_selection_function(kinds._make_leak_sf(classes, scn.get('vdtype') or 'uint8'), guesses=range(scn.get('tguess') or k), words=0)}
+            kw = {'selection_function': scared.attack_selection_function(kinds._make_leak_sf(classes, scn.get('hdtype') or scn.get('vdtype') or 'uint8'), guesses=range(scn.get('tguess') or k), words=0)}
         if record:
             K = recording(K, rec, storage)
         a = K(container_building=scared.Container(ths), reverse_selection_function=rsf, model=scared.Value(), partitions=classes,
@@ -986,7 +986,7 @@ def _execute_c08_template(scn, scared):
         meta = {'value': vm[lo:hi, None].copy()} if kind == 'tstatic' else {'plaintext': ptm[lo:hi]}
         return scared.Container(make_ths(storage, Tm[lo:hi], meta, tag))
 
-    DD = vm[:, None].copy() if kind == 'tstatic' else np.stack([kinds.leak(classes, ptm[:, 0], g, scn.get('vdtype') or 'uint8') for g in range(scn.get('tguess') or k)], 1)
+    DD = vm[:, None].copy() if kind == 'tstatic' else np.stack([kinds.leak(classes, ptm[:, 0], g, scn.get('hdtype') or scn.get('vdtype') or 'uint8') for g in range(scn.get('tguess') or k)], 1)
     tol = compare.tol_for(scn['precision'])
     cols_after_run = []
     with env.clock(env.SimClock()), env.memory(env.SimMemory()):
@@ -1171,6 +1171,11 @@ def generate_c14(seed, tier):
             scn['precision'] = 'float64'
     if L >= 2 and rng.stream(seed, 'zerocol').random() < 0.12 and not scn.get('common'):
         scn['zero_col'] = rng.stream(seed, 'zerocol2').randrange(L)
+    hd = rng.stream(seed, 'hdtype')
+    if scn['kind'] == 'tdpa' and hd.random() < 0.3:
+        # the hypothesis values of the matching phase come from the attack selection function, not from the building metadata: their dtype is
+        # its own (numpy's default int64 for a table written without a dtype)
+        scn['hdtype'] = hd.choice(['int64', 'int64', 'uint64', 'uint8', 'int32', 'uint16'])
     tg = rng.stream(seed, 'tguess')
     if scn['kind'] == 'tdpa' and tg.random() < 0.3:
         # the number of key guesses is not the number of classes (256 guesses over 9 Hamming-weight classes is the standard configuration)
@@ -1254,7 +1259,7 @@ def _c14_attack(scn, scared, storage, Tb, vb, tag='build', like=None):
     if scn['kind'] == 'tstatic':
         a = scared.TemplateAttack(container_building=cont, reverse_selection_function=rsf, model=model, partitions=classes, precision=scn['precision'])
     else:
-        asf = scared.attack_selection_function(kinds._make_leak_sf(list(scn['classes']), scn.get('vdtype') or 'uint8'), guesses=range(scn.get('tguess') or k), words=0)
+        asf = scared.attack_selection_function(kinds._make_leak_sf(list(scn['classes']), scn.get('hdtype') or scn.get('vdtype') or 'uint8'), guesses=range(scn.get('tguess') or k), words=0)
         a = scared.TemplateDPAAttack(container_building=cont, reverse_selection_function=rsf, selection_function=asf,
                                      model=model, partitions=classes, precision=scn['precision'])
     a._c14_rsf = rsf
